@@ -29,7 +29,7 @@ def run(ctx):
     dzput = "<compression::dict_zip::blob_store::DictZipBlobStore as blob_store::traits::BlobStore>::put"
     if not fx.has(dzput):
         raise Broken("anchor function %s not found" % dzput)
-    tagkind.record_sites(ctx, fx, dzput, "compression::dict_zip::blob_store::CompressedBlob", "compressed_data",
+    tagkind.record_sites(ctx, fx, "src/compression/dict_zip/blob_store.rs", "compression::dict_zip::blob_store::CompressedBlob", "compressed_data",
                          ["is_compressed", "entropy_algorithm"])
     ctx.floor('R-TAGKIND.record.sites', 2)
     # bounded decompression in the stores (none on the pinned tree besides the async wrapper; the fixture keeps the rule alive)
